@@ -31,7 +31,7 @@ CLAIMS = {
              "(uses C01's disjointness), INVALID iff none; vertex rows list exactly the containing plaquettes once, in order; plaquette neighbours "
              "are the plaquettes across its edges in edge order; one coordination number per vertex = row length; edge neighbours; adjacency "
              "symmetric/true at joined pairs; helper edge sets = table rows; and history independence of the lazily computed attributes for every "
-             "sequence of accesses and pickle round trips. Every table and helper of koala is compared exactly with the model on the zoo; all 24 "
+             "sequence of accesses and pickle round trips, on one lattice and (interleaving_independent) for every interleaving over any number of lattice objects alive at once - what was computed for one is never observed on another. Every table and helper of koala is compared exactly with the model on the zoo; all 24 "
              "first-access orders × {fresh, unpickled, pickled midway} are executed on the implementation. vertex_row_fits: a vertex lies on at most as many plaquettes as it has incident edges, so the first-free-slot filling of the vertex rows never overflows.",
         note="Trusted: Lean kernel/Mathlib/standard axioms; harness; CPython pickle and cached_property semantics (modelled by the Cache state machine); "
              "the mirror-order relation between clockwise_about and the table is decided by correspondence, not proved; the 'row never overflows' bound "
